@@ -13,7 +13,7 @@ The oracle is a reference written from the property statement: a label-wise read
 (IDN <-> punycode by a fixed table, port aside, case variants -> either verdict) and a conjunction /
 failure-counter model of the debugger.  The implementation is never used to compute its own
 expected value; the only implementation internals touched are (a) ``app.frames`` to register the spy
-frame, (b) ``app._failed_pin_auth.value`` as a snapshot/restore handle for the depth-first walk of
+frame and the instance dictionary as a whole to reset an application to its just-constructed state (_fresh_app), (b) ``app._failed_pin_auth.value`` as a snapshot/restore handle for the depth-first walk of
 the history tree (every reported history failure is re-run from scratch on a fresh application),
 (c) ``werkzeug.debug.time`` / ``_log`` which are replaced by a fake clock / a recorder.
 """
@@ -409,6 +409,48 @@ def _make_app(evalex, pin, inner=_inner_app, trusted=None):
     return app, spy
 
 
+_app_cache: dict = {}
+
+
+def _fresh_app(evalex, pin, trusted=None):
+    """An application in its just-constructed state.
+
+    Constructing a DebuggedApplication allocates a multiprocessing.Value, which is slow when 16 processes do it at
+    once, so one application per configuration is built per process and *reset* before every case: its
+    instance dictionary is put back to a snapshot taken right after construction (containers copied, the shared
+    counter set back to its initial value).  Nothing of the previous case survives; the oracle never reads this state."""
+    key = (evalex, pin)
+    ent = _app_cache.get(key)
+    if ent is None:
+        app, _ = _make_app(evalex, pin)
+        snap = {}
+        for k, v in app.__dict__.items():
+            if k == "frames":
+                continue
+            if hasattr(v, "get_lock") and hasattr(v, "value"):
+                snap[k] = ("shared", v, v.value)
+            elif isinstance(v, (dict, list)):
+                snap[k] = ("copy", v.copy(), None)
+            else:
+                snap[k] = ("plain", v, None)
+        ent = _app_cache[key] = (app, snap)
+    app, snap = ent
+    app.__dict__.clear()
+    for k, (how, v, init) in snap.items():
+        if how == "shared":
+            v.value = init
+            app.__dict__[k] = v
+        elif how == "copy":
+            app.__dict__[k] = v.copy()
+        else:
+            app.__dict__[k] = v
+    spy = _Spy()
+    app.frames = {SPY_ID: spy}
+    if trusted is not None:
+        app.trusted_hosts = list(trusted)
+    return app, spy
+
+
 def _request(app, host, path="/", qs="", cookie=None):
     env = _environ(host, "http", path, qs, cookie)
     out = {}
@@ -546,7 +588,7 @@ def _check_dbg_inner(inp):
     pinentry = inp.get("pinentry", "exact")
     trusted = inp.get("trusted")
     fails = []
-    app, spy = _make_app(evalex, pin, trusted=trusted)
+    app, spy = _fresh_app(evalex, pin, trusted=trusted)
     secret = app.secret
     _Patched.log.clear()
     cookie_hdr, cookie_cls = _cookie_header(cookiekind)
